@@ -17,4 +17,11 @@ EmitNoReauth == NoReauth /\ EmitBehaviour
 \* against every state of that one exchange
 OneAuth == hist'[Len(hist')].a = "Auth" => \A i \in 1..Len(hist) : hist[i].a # "Auth"
 EmitOneAuth == OneAuth /\ EmitBehaviour
+
+\* retry sequences (ServerGenAllRetry*.cfg): all orders of SASL elements and checker replies on one
+\* stream that is opened once -- several attempts, responses without / after / between exchanges
+SaslOnly == LET a == hist'[Len(hist')].a IN
+              \/ a \in {"Auth", "Response", "Reply"}
+              \/ a = "Open" /\ hist = <<>> /\ hist'[1].dom = "ok"
+EmitSaslOnly == SaslOnly /\ EmitBehaviour
 =============================================================================
